@@ -83,13 +83,13 @@ theorem inv_setReg (h : VmInv a B s) (hpc : s.pc < plen) (hB : plen ≤ B) (k v 
 
 theorem exec_nop (h : VmInv a B s) (hpc : s.pc < plen) (hB : plen ≤ B) :
     ∃ s', Isa.exec a plen "nop" body s = some s' ∧ VmInv a B s' :=
-  ⟨_, by simp [Isa.exec], inv_next h hpc hB⟩
+  ⟨_, by simp [Isa.exec, Isa.pipeOps], inv_next h hpc hB⟩
 
 theorem exec_rset (h : VmInv a B s) (hpc : s.pc < plen) (hB : plen ≤ B) (hstd : Isa.stdSize a.rsize = true) :
     ∃ s', Isa.exec a plen "rset" body s = some s' ∧ VmInv a B s' := by
   have h64 : a.rsize ≤ 64 := by
     simp only [Isa.stdSize, Bool.or_eq_true, beq_iff_eq] at hstd; omega
-  exact ⟨_, by simp [Isa.exec, h64] <;> rfl, inv_setReg h hpc hB _ _⟩
+  exact ⟨_, by simp [Isa.exec, Isa.pipeOps, h64] <;> rfl, inv_setReg h hpc hB _ _⟩
 
 theorem exec_unop (op : String) (hop : op = "inc" ∨ op = "dec" ∨ op = "clr")
     (h : VmInv a B s) (hpc : s.pc < plen) (hB : plen ≤ B) (hstd : Isa.stdSize a.rsize = true) :
@@ -97,7 +97,7 @@ theorem exec_unop (op : String) (hop : op = "inc" ∨ op = "dec" ∨ op = "clr")
   have hk : Isa.field body 0 a.r < s.regs.length := by rw [h.regs]; exact field_lt _ _ _
   have hget : s.regs[Isa.field body 0 a.r]? = some (s.regs[Isa.field body 0 a.r]) := List.getElem?_eq_getElem hk
   rcases hop with rfl | rfl | rfl <;>
-    exact ⟨_, by simp [Isa.exec, hget, Isa.unop, hstd] <;> rfl, inv_setReg h hpc hB _ _⟩
+    exact ⟨_, by simp [Isa.exec, Isa.pipeOps, hget, Isa.unop, hstd] <;> rfl, inv_setReg h hpc hB _ _⟩
 
 theorem exec_binop (op : String) (hop : op = "add" ∨ op = "cpy")
     (h : VmInv a B s) (hpc : s.pc < plen) (hB : plen ≤ B) (hstd : Isa.stdSize a.rsize = true) :
@@ -107,15 +107,15 @@ theorem exec_binop (op : String) (hop : op = "add" ∨ op = "cpy")
   have hgd : s.regs[Isa.field body 0 a.r]? = some (s.regs[Isa.field body 0 a.r]) := List.getElem?_eq_getElem hd
   have hgs : s.regs[Isa.field body a.r a.r]? = some (s.regs[Isa.field body a.r a.r]) := List.getElem?_eq_getElem hs
   rcases hop with rfl | rfl <;>
-    exact ⟨_, by simp [Isa.exec, hgd, hgs, Isa.binop, hstd] <;> rfl, inv_setReg h hpc hB _ _⟩
+    exact ⟨_, by simp [Isa.exec, Isa.pipeOps, hgd, hgs, Isa.binop, hstd] <;> rfl, inv_setReg h hpc hB _ _⟩
 
 theorem exec_j (h : VmInv a B s) (hpc : s.pc < plen) (hB : plen ≤ B) :
     ∃ s', Isa.exec a plen "j" body s = some s' ∧ VmInv a B s' := by
   by_cases hv : Isa.field body 0 a.o < plen
-  · refine ⟨{ s with pc := Isa.field body 0 a.o }, by simp [Isa.exec, hv], ?_⟩
+  · refine ⟨{ s with pc := Isa.field body 0 a.o }, by simp [Isa.exec, Isa.pipeOps, hv], ?_⟩
     obtain ⟨h1, h2, h3, h4, h5, h6, h7, h8⟩ := h
     constructor <;> first | assumption | (show Isa.field body 0 a.o ≤ B; omega)
-  · exact ⟨_, by simp [Isa.exec, hv], inv_next h hpc hB⟩
+  · exact ⟨_, by simp [Isa.exec, Isa.pipeOps, hv], inv_next h hpc hB⟩
 
 theorem exec_jz (h : VmInv a B s) (hpc : s.pc < plen) (hB : plen ≤ B) (hstd : Isa.stdSize a.rsize = true)
     (hv : Isa.field body a.r a.o ≤ B) :
@@ -123,24 +123,24 @@ theorem exec_jz (h : VmInv a B s) (hpc : s.pc < plen) (hB : plen ≤ B) (hstd : 
   have hk : Isa.field body 0 a.r < s.regs.length := by rw [h.regs]; exact field_lt _ _ _
   have hget : s.regs[Isa.field body 0 a.r]? = some (s.regs[Isa.field body 0 a.r]) := List.getElem?_eq_getElem hk
   by_cases hz : s.regs[Isa.field body 0 a.r] = 0
-  · refine ⟨{ s with pc := Isa.field body a.r a.o }, by simp [Isa.exec, hget, hstd, hz], ?_⟩
+  · refine ⟨{ s with pc := Isa.field body a.r a.o }, by simp [Isa.exec, Isa.pipeOps, hget, hstd, hz], ?_⟩
     obtain ⟨h1, h2, h3, h4, h5, h6, h7, h8⟩ := h
     constructor <;> first | assumption | exact hv
-  · exact ⟨_, by simp [Isa.exec, hget, hstd, hz], inv_next h hpc hB⟩
+  · exact ⟨_, by simp [Isa.exec, Isa.pipeOps, hget, hstd, hz], inv_next h hpc hB⟩
 
 theorem exec_i2r (h : VmInv a B s) (hpc : s.pc < plen) (hB : plen ≤ B) (hi : Isa.field body a.r a.inBits < a.n) :
     ∃ s', Isa.exec a plen "i2r" body s = some s' ∧ VmInv a B s' := by
   have hk : Isa.field body 0 a.r < s.regs.length := by rw [h.regs]; exact field_lt _ _ _
   have hi' : Isa.field body a.r a.inBits < s.inputs.length := by rw [h.inputs]; exact hi
   have hget : s.inputs[Isa.field body a.r a.inBits]? = some (s.inputs[Isa.field body a.r a.inBits]) := List.getElem?_eq_getElem hi'
-  exact ⟨_, by simp [Isa.exec, hget, hk] <;> rfl, inv_setReg h hpc hB _ _⟩
+  exact ⟨_, by simp [Isa.exec, Isa.pipeOps, hget, hk] <;> rfl, inv_setReg h hpc hB _ _⟩
 
 theorem exec_r2o (h : VmInv a B s) (hpc : s.pc < plen) (hB : plen ≤ B) (ho : Isa.field body a.r a.outBits < a.m) :
     ∃ s', Isa.exec a plen "r2o" body s = some s' ∧ VmInv a B s' := by
   have hk : Isa.field body 0 a.r < s.regs.length := by rw [h.regs]; exact field_lt _ _ _
   have ho' : Isa.field body a.r a.outBits < s.outputs.length := by rw [h.outputs]; exact ho
   have hget : s.regs[Isa.field body 0 a.r]? = some (s.regs[Isa.field body 0 a.r]) := List.getElem?_eq_getElem hk
-  refine ⟨_, by simp [Isa.exec, hget, ho'] <;> rfl, ?_⟩
+  refine ⟨_, by simp [Isa.exec, Isa.pipeOps, hget, ho'] <;> rfl, ?_⟩
   obtain ⟨h1, h2, h3, h4, h5, h6, h7, h8⟩ := h
   constructor <;> first | assumption | (show s.pc + 1 ≤ B; omega) | (simp only [List.length_set]; assumption)
 
@@ -155,12 +155,12 @@ theorem exec_i2rw (h : VmInv a B s) (hpc : s.pc < plen) (hB : plen ≤ B) (hi : 
   cases hv : s.inValid[Isa.field body a.r a.inBits] with
   | true =>
     by_cases hw : s.inRecv[Isa.field body a.r a.inBits]? = some true
-    · refine ⟨s, by simp [Isa.exec, hg1, hg2, hv, hw], ?_⟩
+    · refine ⟨s, by simp [Isa.exec, Isa.pipeOps, hg1, hg2, hv, hw], ?_⟩
       constructor <;> assumption
-    · refine ⟨_, by simp [Isa.exec, hg1, hg2, hv, hk, hw] <;> rfl, ?_⟩
+    · refine ⟨_, by simp [Isa.exec, Isa.pipeOps, hg1, hg2, hv, hk, hw] <;> rfl, ?_⟩
       constructor <;> first | assumption | (show s.pc + 1 ≤ B; omega) | (simp only [List.length_set]; assumption)
   | false =>
-    refine ⟨_, by simp [Isa.exec, hg1, hg2, hv] <;> rfl, ?_⟩
+    refine ⟨_, by simp [Isa.exec, Isa.pipeOps, hg1, hg2, hv] <;> rfl, ?_⟩
     constructor <;> first | assumption | (show s.pc ≤ B; omega) | (simp only [List.length_set]; assumption)
 
 theorem exec_r2owa (h : VmInv a B s) (hpc : s.pc < plen) (hB : plen ≤ B) (ho : Isa.field body a.r a.outBits < a.m) :
@@ -172,14 +172,14 @@ theorem exec_r2owa (h : VmInv a B s) (hpc : s.pc < plen) (hB : plen ≤ B) (ho :
   have hg2 : s.outRecv[Isa.field body a.r a.outBits]? = some (s.outRecv[Isa.field body a.r a.outBits]) := List.getElem?_eq_getElem ho2
   obtain ⟨h1, h2, h3, h4, h5, h6, h7, h8⟩ := h
   by_cases hw : s.outValid[Isa.field body a.r a.outBits]? = some false ∧ s.outRecv[Isa.field body a.r a.outBits] = true
-  · refine ⟨s, by simp [Isa.exec, hg1, hg2, hw], ?_⟩
+  · refine ⟨s, by simp [Isa.exec, Isa.pipeOps, hg1, hg2, hw], ?_⟩
     constructor <;> assumption
   · cases hv : s.outRecv[Isa.field body a.r a.outBits] with
     | true =>
-      refine ⟨_, by simp [Isa.exec, hg1, hg2, hv, ho1] <;> (simp [hv] at hw; simp [hw]) <;> rfl, ?_⟩
+      refine ⟨_, by simp [Isa.exec, Isa.pipeOps, hg1, hg2, hv, ho1] <;> (simp [hv] at hw; simp [hw]) <;> rfl, ?_⟩
       constructor <;> first | assumption | (show s.pc + 1 ≤ B; omega) | (simp only [List.length_set]; assumption)
     | false =>
-      refine ⟨_, by simp [Isa.exec, hg1, hg2, hv, ho1] <;> rfl, ?_⟩
+      refine ⟨_, by simp [Isa.exec, Isa.pipeOps, hg1, hg2, hv, ho1] <;> rfl, ?_⟩
       constructor <;> first | assumption | (show s.pc ≤ B; omega) | (simp only [List.length_set]; assumption)
 
 end exec
